@@ -6,6 +6,7 @@ from checks import gpbft_common as g
 def run(ctx):
     ctx.prove()
     g.network(ctx, "C01-")
+    g.validation_gate(ctx)
     return ctx.finish(
         rule=g.RULE + " Oracle C01: all honest decisions of a run are equal.",
         trusted_base=g.TRUSTED + [
